@@ -173,7 +173,14 @@ def run_est(case, drv):
     kw = {}
     try:
         if est == "mle":
-            cpds = MaximumLikelihoodEstimator(build_model(case), df, **sn_arg(case)).get_parameters(n_jobs=case["n_jobs"], weighted=weighted)
+            e_ = MaximumLikelihoodEstimator(build_model(case), df, **sn_arg(case))
+            if case["pseudo_seed"] % 3 == 0:
+                # the estimator object has been asked something else before (other weighting / single nodes): nothing may be cached across calls
+                try:
+                    e_.get_parameters(n_jobs=1, weighted=not weighted) if case["weights"] else [e_.estimate_cpd(x) for x in names[:2]]
+                except Exception:
+                    pass
+            cpds = e_.get_parameters(n_jobs=case["n_jobs"], weighted=weighted)
             kind = "mle"
         elif est == "dirichlet_scalar":
             # one scalar pseudo-count for every cell (possibly fractional)
@@ -189,6 +196,11 @@ def run_est(case, drv):
             kind = "dirichlet"
         elif est in ("k2", "bdeu", "dirichlet"):
             be = BayesianEstimator(build_model(case), df, **sn_arg(case))
+            if case["pseudo_seed"] % 3 == 0:
+                try:
+                    be.get_parameters(prior_type="BDeu" if est == "k2" else "K2", equivalent_sample_size=3, n_jobs=1)
+                except Exception:
+                    pass
             if est == "k2":
                 cpds = be.get_parameters(prior_type="K2", n_jobs=case["n_jobs"], weighted=weighted)
             elif est == "bdeu":
